@@ -375,6 +375,10 @@ int32_t tls13DecryptTicket(ssl_t *ssl,
 
     ptLen = encStateLen;
     pt = psMalloc(ssl->hsPool, ptLen);
+    if (pt == NULL)
+    {
+        goto out_internal_error;
+    }
 
     rc = psAesInitGCM(&ctx, key->symkey, key->symkeyLen);
     if (rc < 0)
